@@ -193,6 +193,9 @@ func GenScenario(p *Program, r *Rand, exec uint64, tagName string, k int) *Scena
 				if r.Chance(1, 40) {
 					n = 1000
 				}
+				if c.End != nil && r.Chance(1, 50) {
+					n = 65537 + r.Intn(3000) // more element jobs than a 16-bit counter holds
+				}
 				for len(s.Colls) <= c.Slot {
 					s.Colls = append(s.Colls, nil)
 				}
@@ -383,6 +386,29 @@ func GenScenario(p *Program, r *Rand, exec uint64, tagName string, k int) *Scena
 			i++
 		}
 		s.GateOpen = "hwm"
+	case "bigend":
+		// A collection with an End hook gets more elements than a 16-bit counter
+		// holds, and every element call is held until the scheduler has accepted
+		// the End hook's job (or the directive has returned).
+		if p.Par != nil {
+			for _, it := range p.Par.Items {
+				c := it.Coll
+				if c == nil || c.End == nil {
+					continue
+				}
+				n := 65537 + r.Intn(2000)
+				toks := make([]uint64, n)
+				for i := range toks {
+					toks[i] = ElemTok(exec, c.Slot, i)
+				}
+				s.Colls[c.Slot] = toks
+				o := s.Out[c.Fn.ID]
+				o.Gate, o.Delay, o.DelayArg = true, 0, 0
+				s.Out[c.Fn.ID] = o
+				s.GateOpen = "bigenq"
+				break
+			}
+		}
 	case "wide":
 		// Every function is held until as many are in flight as the limit
 		// allows (and a little longer, so that any excess shows).
